@@ -541,13 +541,16 @@ def _save_globals():
 # ------------------------------------------------------------------------------------------------
 # channel operations and bare transport calls over the real transports
 # ------------------------------------------------------------------------------------------------
-def new_channel(tr, t, To, prompt=PROMPT):
+def new_channel(tr, t, To, prompt=PROMPT, lock=False):
+    """lock: channel_lock=True -- every public channel operation runs under the channel's lock (an operation that a
+    loss interrupts must give it back: the next one on the dead connection must not wait for it)"""
     from scrapli.channel.base_channel import BaseChannelArgs
     if stack_of(tr) == "sync":
         from scrapli.channel.sync_channel import Channel as C
     else:
         from scrapli.channel.async_channel import AsyncChannel as C
-    return C(transport=t, base_channel_args=BaseChannelArgs(comms_prompt_pattern=prompt, timeout_ops=To))
+    return C(transport=t, base_channel_args=BaseChannelArgs(comms_prompt_pattern=prompt, timeout_ops=To,
+                                                            channel_lock=bool(lock)))
 
 
 def channel_op(ch, op):
@@ -564,6 +567,8 @@ def channel_op(ch, op):
         return ch.channel_authenticate_ssh(op.get("password", "pw"), op.get("passphrase", "pp"))
     if k == "send_return":
         return ch.send_return()
+    if k == "send_and_read":
+        return ch.send_input_and_read(op["input"], expected_outputs=op.get("expect"), read_duration=op.get("dur", 0.8))
     raise ValueError(k)
 
 
@@ -579,7 +584,7 @@ def run_channel_case(case):
     try:
         if case.get("init") == "closed":
             observe(loop, t.close)
-        ch = new_channel(tr, t, case["To"])
+        ch = new_channel(tr, t, case["To"], lock=case.get("lock"))
         for op in case["ops"]:
             if op["op"] == "isalive":
                 o, el = observe(loop, t.isalive)
@@ -685,6 +690,8 @@ def make_driver(case, env):
         args["auth_secondary"] = case["secondary"]
     if case.get("priv"):
         args["default_desired_privilege_level"] = case["priv"]
+    if case.get("lock"):
+        args["channel_lock"] = True
     d = cls(**args)
     return d, stack
 
@@ -771,7 +778,8 @@ def run_driver_case(case):
             elif k == "acquire_priv":
                 o, el = observe(loop, d.acquire_priv, op["priv"])
             elif k == "send_and_read":
-                o, el = observe(loop, d.send_and_read, op["cmd"], read_duration=op.get("dur", 0.2))
+                o, el = observe(loop, d.send_and_read, op["cmd"], expected_outputs=op.get("expect"),
+                                read_duration=op.get("dur", 0.2))
             elif k == "isalive":
                 o, el = observe(loop, d.isalive)
                 o = ["bool", bool(o[1])] if o[0] == "ret" else o
@@ -785,6 +793,8 @@ def run_driver_case(case):
             alive = bool(a[1]) if a[0] == "ret" else a
             obs.append({"op": k, "out": o, "elapsed": round(el, 3), "alive": alive,
                         "dropped": (wire.dropped if wire is not None else bool(t.c08_dropped)),
+                        "delivered": (wire.delivered if wire is not None else t.delivered),
+                        "nwrites": (wire.nwrites if wire is not None else t.nwrites),
                         "attached": (_attached(t, tr) if wire is not None else bool(t.opened))})
     finally:
         _restore_globals(saved)
